@@ -66,6 +66,12 @@ func loadVariants(prop, verif string) []Variant {
 		}
 		out = append(out, Variant{Name: "seeded/" + filepath.Base(filepath.Dir(m)), Patch: filepath.Join(filepath.Dir(m), "patch.diff")})
 	}
+	// behaviour-preserving refactorings written by independent agents: every check must stay silent
+	bdirs, _ := filepath.Glob(filepath.Join(verif, "benign", "*", "patch.diff"))
+	sort.Strings(bdirs)
+	for _, pd := range bdirs {
+		out = append(out, Variant{Name: "benign/" + filepath.Base(filepath.Dir(pd)), Patch: pd, Benign: true})
+	}
 	return out
 }
 
